@@ -304,3 +304,23 @@ pub fn compare_output(out: &[Entry], model: &[(Vec<u8>, Vec<Vec<u8>>)], unstable
     }
     Ok(())
 }
+
+/// Runs the real sorter (CursorVec chunks) and returns the bytes of every chunk file it ends
+/// with, oldest first.
+pub fn sorter_chunk_files(cfg: &SorterCfg, inserts: &[Entry]) -> Result<Vec<Vec<u8>>, String> {
+    let r = guarded(|| -> Result<Vec<Vec<u8>>, String> {
+        let mut b = SorterBuilder::new(Concat).chunk_creator(CursorVec);
+        configure(cfg, &mut b);
+        let mut sorter = b.build();
+        for (i, (k, v)) in inserts.iter().enumerate() {
+            sorter.insert(k, v).map_err(|e| format!("insert #{i}: {e}"))?;
+        }
+        let cursors = sorter.into_reader_cursors().map_err(|e| format!("into_reader_cursors: {e}"))?;
+        Ok(cursors.into_iter().map(|c| c.into_inner().into_inner()).collect())
+    });
+    grenad::verif::set_sorter_constants(None, None);
+    match r {
+        Ok(x) => x,
+        Err(p) => Err(p),
+    }
+}
